@@ -205,6 +205,57 @@ STEP_BASE = 20000
 STEP_PER_BYTE = 60
 
 
+class ReadMeter(object):
+    """the serializer opens its inputs with the module-level name BytesIO: a counting subclass adds up the bytes every
+    read()/getvalue()/getbuffer() hands out - work done inside C calls that line-steps and peak allocation do not see
+    (re-reading or copying the rest of the input per element is quadratic work per input)"""
+
+    def __init__(self):
+        import io
+        from mpgameserver import serializable as S
+        import mpgameserver.connection as C
+        meter = self
+        self.bytes_out = 0
+
+        class CountingBytesIO(io.BytesIO):
+            def read(self, *a):
+                d = io.BytesIO.read(self, *a)
+                meter.bytes_out += len(d)
+                return d
+
+            def read1(self, *a):
+                d = io.BytesIO.read1(self, *a)
+                meter.bytes_out += len(d)
+                return d
+
+            def readline(self, *a):
+                d = io.BytesIO.readline(self, *a)
+                meter.bytes_out += len(d)
+                return d
+
+            def getvalue(self):
+                d = io.BytesIO.getvalue(self)
+                meter.bytes_out += len(d)
+                return d
+
+            def getbuffer(self):
+                d = io.BytesIO.getbuffer(self)
+                meter.bytes_out += len(d)
+                return d
+        self.S, self.C = S, C
+        self.orig = (S.BytesIO, C.BytesIO)
+        S.BytesIO = CountingBytesIO
+        C.BytesIO = CountingBytesIO
+        self.cls = CountingBytesIO
+
+    def undo(self):
+        self.S.BytesIO, self.C.BytesIO = self.orig
+
+
+READ_BASE = 4096
+READ_PER_BYTE = 4
+
+
 class Meter(object):
     """activation counter on deserialize_value (module global, so recursion goes through it)"""
 
@@ -249,6 +300,7 @@ def run_shard(cfg):
     registry_classes = set(S.SerializableType.registry.values())
     type_ids = sorted(S.SerializableType.registry) + sorted(S.deserialize_types)
     meter = Meter()
+    reads = ReadMeter()
     steps = StepMeter()
     ctxt = ServerContext(EventHandler(), root)
     worst = {"ratio": 0.0, "act": 0.0, "steps": 0.0}
@@ -281,8 +333,9 @@ def run_shard(cfg):
                 return conn._recvServerHello(b)
         else:
             def call():
-                return Request(("1.2.3.4", 5), "POST", "/m", {}, "", {}, BytesIO(b)).message()
+                return Request(("1.2.3.4", 5), "POST", "/m", {}, "", {}, reads.cls(b)).message()
         meter.n = 0
+        reads.bytes_out = 0
         steps.steps = 0
         steps.budget = STEP_BASE + STEP_PER_BYTE * len(b)
         tracemalloc.clear_traces()
@@ -321,6 +374,14 @@ def run_shard(cfg):
                 viol("iterates-beyond-input", "%s input of %d bytes (%s): %d decoder activations, bound %d" % (label, len(b), via, meter.n, bound),
                      {"input": b[:64].hex(), "label": label, "activations": meter.n})
             worst["act"] = max(worst["act"], meter.n / float(bound))
+        c.inc("stream_bytes_handed_out", reads.bytes_out)
+        if reads.bytes_out:
+            c.inc("inputs_with_read_meter")
+        if reads.bytes_out > READ_BASE + READ_PER_BYTE * len(b):
+            viol("rereads-input", "%s input of %d bytes (%s): the decoder pulled %d bytes out of its input stream (bound %d + %d per byte): it reads or copies "
+                 "the input again and again" % (label, len(b), via, reads.bytes_out, READ_BASE, READ_PER_BYTE),
+                 {"input": b[:64].hex(), "label": label, "bytes_out": reads.bytes_out, "length": len(b)})
+        worst["reads"] = max(worst.get("reads", 0.0), reads.bytes_out / float(READ_BASE + READ_PER_BYTE * len(b)))
         limit = ALLOC_BASE + ALLOC_PER_BYTE * len(b)
         if via in ("client-hello-handler", "challenge-handler", "server-hello-handler"):
             limit += 64 * 1024          # key objects of the connection the handler belongs to
@@ -413,10 +474,12 @@ def run_shard(cfg):
         if len(samples) < 3:
             samples.append({"attack_examples": [(l, b[:24].hex()) for l, b in attacks[::37]][:8],
                             "worst_alloc_bytes_per_input_byte": round(worst["ratio"], 1), "worst_activation_ratio": round(worst["act"], 3),
-                            "worst_step_budget_fraction": round(worst["steps"], 3)})
+                            "worst_step_budget_fraction": round(worst["steps"], 3),
+                            "worst_read_budget_fraction": round(worst.get("reads", 0.0), 3)})
     finally:
         tracemalloc.stop()
         meter.undo()
+        reads.undo()
         steps.undo()
     return {"evaluations": c.get("inputs", 0), "distinct": sorted(distinct), "counters": dict(c), "violations": violations, "samples": samples,
             "observations": ["worst peak allocation per input byte: %.1f" % worst["ratio"],
@@ -428,7 +491,7 @@ def finish(tier, seed, results):
     inconclusive = []
     need(m["counters"], ["inputs", "returned", "raised_ordinary_exception", "control_valid_decoded", "inputs_declared-length", "inputs_nested-declared-length", "inputs_deep-nesting-seq",
                          "inputs_truncation", "inputs_bitflip", "inputs_typeid", "inputs_random", "via_client-hello-handler", "via_challenge-handler",
-                         "via_server-hello-handler", "via_request-message", "decoded_values_inspected", "decoder_line_steps", "post_control_valid_decoded"], inconclusive)
+                         "via_server-hello-handler", "via_request-message", "decoded_values_inspected", "decoder_line_steps", "post_control_valid_decoded", "inputs_with_read_meter"], inconclusive)
     if m["counters"].get("watchdog_inconclusive"):
         inconclusive.append("%d inputs exceeded the 5 s wall-clock watchdog" % m["counters"]["watchdog_inconclusive"])
     if m["counters"].get("control_valid_failed"):
